@@ -24,15 +24,18 @@ from .common import CTL, short
 
 # foundation group -> (home module, qualname prefixes of the functions its rules decide)
 GROUPS: Dict[str, tuple] = {
-    "timing": ("c10", ["reamber.algorithms.timing.", "reamber.base.lists.BpmList.BpmList.to_timing_map"]),
+    "timing": ("c10", ["reamber.algorithms.timing.", "reamber.base.lists.BpmList.BpmList.to_timing_map", "reamber.base.RAConst."]),
     "lists": ("c16", ["reamber.base.lists.TimedList.TimedList.", "reamber.base.lists.notes.HoldList.HoldList.",
                       "reamber.base.Hold.Hold.", "reamber.base.Property."]),
     "state": ("c14", ["reamber."]),
+    "tables": ("c08", ["reamber.sm.SMMapMeta.SMMapChartTypes.", "reamber.quaver.QuaMapMeta.QuaMapMode.",
+                       "reamber.osu.OsuSampleSet.OsuSampleSet."]),
     "stack": ("c12", ["reamber.base.Map.Map.Stacker", "reamber.base.Map.Map.stack", "reamber.base.MapSet.MapSet.Stacker",
                       "reamber.base.MapSet.MapSet.stack"]),
 }
 # rules of a home module that only make sense at home (whole-property obligations, not facts about shared code)
-HOME_ONLY = {"c16": set(), "c12": set(), "c10": set(), "c14": {"C14.R1", "C14.R2", "C14.R3"}}
+HOME_ONLY = {"c16": set(), "c12": set(), "c10": set(), "c14": {"C14.R1", "C14.R2", "C14.R3"},
+             "c08": {"C08.R1", "C08.R2", "C08.R3", "C08.R4", "C08.R5", "C08.R6", "C08.R7", "C08.R8"}}
 
 
 def reached_groups(ctx, entries: List[str]) -> Dict[str, List[str]]:
@@ -69,20 +72,29 @@ def _closure(ctx, entries):
     key = ("deps.closure.set", tuple(entries))
     if key not in ctx.cache:
         M = ctx.M
-        clo = set(O.closure(ctx, [e for e in entries if e in M.funcs],
-                            exclude=lambda q: CTL in q or ".playField" in q or "parse_replay" in q))
+        excl = lambda q: CTL in q or ".playField" in q or "parse_replay" in q  # noqa: E731
+        clo = set(O.closure(ctx, [e for e in entries if e in M.funcs], exclude=excl))
         # implicit calls: operators, iteration, len(), attribute stores on generated properties.  A class one of whose
         # methods is reached has its dunder methods reached too; a stacker that is constructed is used through all of its
-        # accessors (that is its only purpose), so its whole class is reached.
-        classes = {M.funcs[q].cls for q in clo if q in M.funcs and M.funcs[q].cls}
-        for c in list(classes):
-            for k in M.mro(c):
-                if k not in M.classes:
-                    continue
-                whole = "Stacker" in k
-                for q, f in M.funcs.items():
-                    if f.cls == k and (whole or (f.name.startswith("__") and f.name.endswith("__"))):
-                        clo.add(q)
+        # accessors (that is its only purpose), so its whole class is reached.  What those methods call is reached as well
+        # (iterated to a fixpoint).
+        for _round in range(6):
+            before = len(clo)
+            classes = {M.funcs[q].cls for q in clo if q in M.funcs and M.funcs[q].cls}
+            implicit = set()
+            for c in list(classes):
+                for k in M.mro(c):
+                    if k not in M.classes:
+                        continue
+                    whole = "Stacker" in k
+                    for q, f in M.funcs.items():
+                        if f.cls == k and (whole or (f.name.startswith("__") and f.name.endswith("__"))) and q not in clo:
+                            implicit.add(q)
+            if implicit:
+                clo |= set(O.closure(ctx, sorted(implicit), exclude=lambda q: excl(q) or q in clo))
+                clo |= implicit
+            if len(clo) == before:
+                break
         # a class built by one of the Property.py decorators is used through the accessors that decorator generates
         import ast as _ast
         for c in {M.funcs[q].cls for q in clo if q in M.funcs and M.funcs[q].cls}:
